@@ -75,7 +75,7 @@ def rule_precede(db, chk, cfg, rule="PRECEDE"):
                 continue
             seen.add(key)
             total_sites += 1
-            closed_sites += is_open == "false"
+            closed_sites += is_open != "true"          # a non-literal isOpen is reported above; it still counts as a site
             bad = [m for (y, m) in cl.bad if y is x]
             chk.instance(rule, {"function": f.qual, "call": "%s(%s->pts, %s, %s, ..)" % (nm, rec, rev, is_open), "where": where(x), "cfg": cfg}, ok=not bad)
             for m in bad[:1]:
